@@ -302,3 +302,107 @@ def c20_replay(pid, path, ctx):
         return 1
     print("REPLAY-PASS")
     return 0
+
+
+# ---------------------------------------------------------------------------------------------- C02 auto-init differential
+def _c02_build_z(H, pid):
+    objs, err = H.build_core("asanz")
+    if err:
+        return None, "core does not compile for the asanz flavour:\n" + err
+    return H.link_runner(pid, "asanz", objs)
+
+
+def _c02_digest_of(exe, case, H):
+    r = subprocess.run([exe, "--digest-of", case], stdout=subprocess.PIPE, stderr=subprocess.STDOUT, text=True, env=H.run_env(), timeout=600)
+    m = re.search(r"TRACE-DIGEST (\w+)", r.stdout)
+    return m.group(1) if m else None
+
+
+def c02_autoinit_post(pid, tier, seed, ctx):
+    """Runs the same generated cases against a second build of the core that differs only in what an uninitialised automatic variable
+    reads (zero instead of the 0xAA pattern) and compares the transmit-trace digests case by case: a difference means that stack
+    garbage reaches a transmitted frame or a decision (the determinism clause of C02, for memory the allocation patterns cannot vary)."""
+    H = ctx["helpers"]
+    rundir, exe_a = ctx["rundir"], ctx["exes"]["asan"]
+    exe_z, err = _c02_build_z(H, pid)
+    if err:
+        return [], {}, [("asanz", 0, err, os.devnull)]
+    jobs = [(i, n) for fl, i, n in ctx["jobs"] if fl == "asan"]
+
+    def one(j):
+        i, n = j
+        out = os.path.join(rundir, "asanz-%d.json" % i)
+        cmd = [exe_z, "--tier", tier, "--seed", str(seed), "--shard", "%d/%d" % (i, n), "--out", out, "--failing", os.path.join(rundir, "asanz-%d.failing.case" % i),
+               "--digests", os.path.join(rundir, "asanz-%d.dig.txt" % i), "--no-isolate"]
+        if ctx.get("scale"):
+            cmd += ["--scale", str(ctx["scale"])]
+        with open(os.path.join(rundir, "asanz-%d.log" % i), "w") as lf:
+            return subprocess.run(cmd, stdout=lf, stderr=subprocess.STDOUT, env=H.run_env(), cwd=rundir).returncode
+    import concurrent.futures as cf
+    with cf.ThreadPoolExecutor(H.NCPU) as ex:
+        list(ex.map(one, jobs))
+    compared = differing = 0
+    violations, herr = [], []
+    for i, n in jobs:
+        for fa in glob.glob(os.path.join(rundir, "asan-%d.dig.txt.*" % i)):
+            fz = fa.replace("asan-%d.dig" % i, "asanz-%d.dig" % i)
+            if not os.path.exists(fz):
+                continue
+            la, lz = open(fa).read().split("\n"), open(fz).read().split("\n")
+            for k, (x, y) in enumerate(zip(la, lz)):
+                if not x or not y:
+                    continue
+                compared += 1
+                if x.split()[0] != y.split()[0]:
+                    herr.append(("asanz", i, "case sequences of the two builds diverge at index %d (generation is not independent of the core?)" % k, os.devnull))
+                    break
+                if x != y:
+                    differing += 1
+                    if violations:
+                        continue
+                    case = os.path.join(rundir, "autoinit-%d-%d.case" % (i, k))
+                    subprocess.run([exe_a, "--tier", tier, "--seed", str(seed), "--shard", "%d/%d" % (i, n), "--dump-index", str(k), "--out", case] + (["--scale", str(ctx["scale"])] if ctx.get("scale") else []),
+                                   stdout=subprocess.DEVNULL, stderr=subprocess.DEVNULL, env=H.run_env(), cwd=rundir)
+                    if not os.path.exists(case):
+                        herr.append(("asanz", i, "could not regenerate case %d" % k, os.devnull))
+                        continue
+                    res = [(_c02_digest_of(exe_a, case, H), _c02_digest_of(exe_z, case, H)) for _ in range(3)]
+                    if all(a and z and a != z for a, z in res):
+                        h = hashlib.sha1(open(case, "rb").read()).hexdigest()[:10]
+                        dst = os.path.join(H.OUT, "replays", pid, "found-autoinit-%s.case" % h)
+                        os.makedirs(os.path.dirname(dst), exist_ok=True)
+                        why = ["REPLAY-FAIL transmitted frames differ between two builds of the core that differ only in the value an uninitialised automatic variable reads (0xAA.. vs 0x00..): uninitialised stack memory reaches a frame or a decision"]
+                        open(dst, "w").write("# %s\n" % why[0] + open(case).read())
+                        violations.append((dst, why))
+                    else:
+                        herr.append(("asanz", i, "digest difference at index %d does not reproduce on the regenerated case (%s)" % (k, res), os.devnull))
+    # saved differential cases
+    for case in sorted(glob.glob(os.path.join(ctx["V"], "replays", pid, "*.case"))):
+        if "# differential=autoinit" in open(case).read():
+            a, z = _c02_digest_of(exe_a, case, H), _c02_digest_of(exe_z, case, H)
+            if a and z and a != z:
+                violations.append((case, ["REPLAY-FAIL saved differential case: traces of the pattern-initialised and the zero-initialised build differ"]))
+    cov = {"autoinit_differential": {"cases_compared_between_builds": compared, "cases_with_different_traces": differing,
+                                     "builds": "-ftrivial-auto-var-init=pattern versus =zero for the core translation units"}}
+    return violations, cov, herr
+
+
+def c02_replay(pid, path, ctx):
+    """differential cases need both builds; everything else goes through the ordinary replay"""
+    if "# differential=autoinit" not in open(path).read():
+        return None
+    H = ctx["helpers"]
+    objs, err = H.build_core("asan")
+    exe_a, err2 = H.link_runner(pid, "asan", objs) if not err else (None, err)
+    exe_z, err3 = _c02_build_z(H, pid)
+    if err or err2 or err3:
+        print("HARNESS-ERROR:", err or err2 or err3)
+        return 2
+    a, z = _c02_digest_of(exe_a, path, H), _c02_digest_of(exe_z, path, H)
+    print("trace digest with pattern-initialised automatic variables: %s, zero-initialised: %s" % (a, z))
+    if a and z and a != z:
+        print("REPLAY-FAIL transmitted frames depend on uninitialised stack memory")
+        print("VIOLATION property=%s replay=%s" % (pid, path))
+        return 1
+    print("REPLAY-PASS")
+    return 0
